@@ -850,6 +850,12 @@ fn c08_position(p_in: &Pos, rng: &mut Rng, st: &mut Stats, only_depth: Option<u8
         st.bump(&format!("avoidable_mate_trials_{}", t));
     }
     st.sample_tagged("avoidable_mate", || J::obj(vec![("fen", J::s(p.to_fen())), ("depth", J::i(d as i64)), ("kind", J::s("avoidable_mate")), ("moves_allowing_mate_in_one", J::arr_s(blunders.clone())), ("legal_moves", J::i(legal.len() as i64))]));
+    // the same question to a fresh engine that has been GIVEN THE GAME SO FAR, a game in which the blunder was
+    // already played once (the opponent missed the mate) and both sides went back: the position after the
+    // blunder stands on record once, which is no draw — the engine must still avoid it
+    if only_depth.is_none() && rng.chance(1, 3) {
+        c08_with_game_record(p, &legal, &blunders, d, rng, st);
+    }
     match c08_search(p, d, st) {
         Err(msg) if c08_capped(&msg, st) => {}
         Err(msg) => st.violation(format!("C08:panic:{}:{}", p.to_fen(), d), format!("search of {} to depth {} panicked: {}", p.to_fen(), d, msg), J::obj(vec![("fen", J::s(p.to_fen())), ("depth", J::i(d as i64))])),
@@ -865,6 +871,71 @@ fn c08_position(p_in: &Pos, rng: &mut Rng, st: &mut Stats, only_depth: Option<u8
         }
     }
     true
+}
+
+/// (b) with a game record: p, blunder m, a quiet reversible reply y that is not the mate, m back, y back —
+/// the engine is given 'position fen p moves m y m' y'' (so p stands for the second time and p.m stood once)
+/// and must not answer a move that allows mate in one. Blunders whose position would stand for the THIRD
+/// time are not counted as blunders (that is a draw by repetition), which cannot happen in this construction
+/// but is checked all the same.
+fn c08_with_game_record(p: &Pos, legal: &[Mv], blunders: &[String], d: u8, rng: &mut Rng, st: &mut Stats) {
+    use crate::oracle::{kind, MvKind, P};
+    let quiet = |q: &Pos| -> Vec<Mv> { q.legal_moves().into_iter().filter(|m| m.kind == MvKind::Normal && m.promo == 0 && !q.is_capture(m) && kind(q.sq[m.from as usize]) != P).collect() };
+    let cands: Vec<Mv> = quiet(p).into_iter().filter(|m| blunders.contains(&m.uci())).collect();
+    if cands.is_empty() {
+        return;
+    }
+    for _ in 0..6 {
+        let m = *rng.pick(&cands);
+        let p1 = p.make(&m);
+        let l1 = p1.legal_moves();
+        let mates: Vec<String> = mates_in_one(&p1, &l1).iter().map(|x| x.uci()).collect();
+        let ys: Vec<Mv> = quiet(&p1).into_iter().filter(|y| !mates.contains(&y.uci())).collect();
+        if ys.is_empty() {
+            continue;
+        }
+        let y = *rng.pick(&ys);
+        let p2 = p1.make(&y);
+        let Some(mb) = p2.legal_moves().into_iter().find(|x| x.from == m.to && x.to == m.from && x.kind == MvKind::Normal && x.promo == 0) else { continue };
+        let p3 = p2.make(&mb);
+        let Some(yb) = p3.legal_moves().into_iter().find(|x| x.from == y.to && x.to == y.from && x.kind == MvKind::Normal && x.promo == 0) else { continue };
+        let p4 = p3.make(&yb);
+        if p4.key() != p.key() {
+            continue;
+        }
+        let cmd = format!("position fen {} moves {} {} {} {}", p.to_fen(), m.uci(), y.uci(), mb.uci(), yb.uci());
+        crate::report::note_case(&format!("{} ; search to depth {}", cmd, d));
+        let t0 = std::time::Instant::now();
+        let r = engine_call(|| {
+            let mut e = crate::uci::Flounder::new();
+            e.verif_handle_command(&cmd);
+            let b = *e.verif_board();
+            let s = e.verif_searcher();
+            s.verif_timer().hard_cap = Some(C08_NODE_CAP);
+            s.find_best_move(&b, d, Some(std::time::Duration::from_secs(C08_WALL_S))).1.map(|x| x.to_algebraic())
+        });
+        if t0.elapsed().as_secs() >= C08_WALL_S {
+            st.bump("searches_skipped_over_their_node_or_time_budget");
+            return;
+        }
+        st.bump("avoidable_mate_trials_given_a_game_in_which_the_blunder_was_already_played_once");
+        let case = J::obj(vec![("fen", J::s(p.to_fen())), ("depth", J::i(d as i64)), ("kind", J::s("avoidable_mate_with_game_record")), ("position_command", J::s(cmd.clone()))]);
+        match r {
+            Err(msg) if c08_capped(&msg, st) => {}
+            Err(msg) => st.violation(format!("C08:panic:{}:{}", cmd, d), format!("search after '{}' to depth {} panicked: {}", cmd, d, msg), case),
+            Ok(ans) => {
+                let a = ans.unwrap_or_else(|| "none".into());
+                if blunders.contains(&a) || !legal.iter().any(|x| x.uci() == a) {
+                    st.violation(
+                        format!("C08:allowed-mate-with-game-record:{}:{}", cmd, d),
+                        format!("after '{}' (the position stands for the second time, the one after {} stood once) at depth {}: the engine answers {} which allows mate in one; {} of {} legal moves avoid it", cmd, m.uci(), d, a, legal.len() - blunders.len(), legal.len()),
+                        case,
+                    );
+                }
+            }
+        }
+        return;
+    }
 }
 
 /// Positions rich in mating threats: a lone-ish king against heavy pieces.
@@ -986,9 +1057,9 @@ fn g_mating_sparse(rng: &mut Rng) -> Pos {
 pub fn run_c08(ctx: &Ctx) -> i32 {
     let spec = Spec {
         level: "exploration",
-        rule: "a case is (position, depth) met along random games, synthetic positions and king-hunt studies that satisfies (a) the side to move has a mate in one (depth 1..4, depth 4 only with few men): the answer of find_best_move on a fresh engine must be one of the mating moves; or (b) no mate in one, and the legal moves split into ones that allow the opponent a mate in one and ones that do not (depth 2..3): the answer must not be one that allows it. A tenth of the trials come from batteries (a slider aimed at the king through one piece of its own side: discovered checks and mates, with loose pieces around), a tenth from sparse material around a cornered king (3..6 men: minor pieces only, lone pawns about to promote, under-promotion mates). Sets are computed with the reference rules only; half of the positions are given with hostile move counters (halfmove clock up to 99). Distinct by (position, depth, kind); (a) is non-trivial when some legal move does not mate, (b) always",
+        rule: "a case is (position, depth) met along random games, synthetic positions and king-hunt studies that satisfies (a) the side to move has a mate in one (depth 1..4, depth 4 only with few men): the answer of find_best_move on a fresh engine must be one of the mating moves; or (b) no mate in one, and the legal moves split into ones that allow the opponent a mate in one and ones that do not (depth 2..3): the answer must not be one that allows it. A tenth of the trials come from batteries (a slider aimed at the king through one piece of its own side: discovered checks and mates, with loose pieces around), a tenth from sparse material around a cornered king (3..6 men: minor pieces only, lone pawns about to promote, under-promotion mates). A third of the (b) trials are asked a second time of a fresh engine that was given the game so far through the position command — a game in which the blunder was already played once, the mate missed, and both sides went back (the position after the blunder stands on record once: no draw). Sets are computed with the reference rules only; half of the positions are given with hostile move counters (halfmove clock up to 99). Distinct by (position, depth, kind); (a) is non-trivial when some legal move does not mate, (b) always",
         assumptions: vec!["the reference rules implementation is correct (perft self-test at every run)".into()],
-        required: if ctx.replay.is_some() { vec![] } else { vec!["mate_in_one_trials_depth_1", "mate_in_one_trials_depth_2", "mate_in_one_trials_depth_3", "mate_in_one_trials_depth_4", "avoidable_mate_trials_depth_2", "avoidable_mate_trials_depth_3", "positions_examined_with_hostile_move_counters", "mate_in_one_trials_minor_pieces_only", "avoidable_mate_trials_minor_pieces_only", "mate_in_one_trials_at_most_5_men", "mate_in_one_trials_one_minor_piece_each", "mate_in_one_trials_where_a_mating_move_is_a_quiet_discovered_check", "avoidable_mate_trials_where_a_threatened_mate_is_a_quiet_discovered_check", "mate_in_one_trials_where_a_mating_move_is_a_double_step_next_to_an_enemy_pawn", "mating_move_is_en_passant"] },
+        required: if ctx.replay.is_some() { vec![] } else { vec!["mate_in_one_trials_depth_1", "mate_in_one_trials_depth_2", "mate_in_one_trials_depth_3", "mate_in_one_trials_depth_4", "avoidable_mate_trials_depth_2", "avoidable_mate_trials_depth_3", "positions_examined_with_hostile_move_counters", "mate_in_one_trials_minor_pieces_only", "avoidable_mate_trials_minor_pieces_only", "mate_in_one_trials_at_most_5_men", "mate_in_one_trials_one_minor_piece_each", "mate_in_one_trials_where_a_mating_move_is_a_quiet_discovered_check", "avoidable_mate_trials_where_a_threatened_mate_is_a_quiet_discovered_check", "mate_in_one_trials_where_a_mating_move_is_a_double_step_next_to_an_enemy_pawn", "mating_move_is_en_passant", "avoidable_mate_trials_given_a_game_in_which_the_blunder_was_already_played_once"] },
         exhaustive: false,
         extra: vec![],
     };
@@ -996,6 +1067,29 @@ pub fn run_c08(ctx: &Ctx) -> i32 {
         let mut st = Stats::new();
         if let Some(c) = r.get("case") {
             match Pos::from_fen(&c.str_of("fen")) {
+                Ok(p) if c.str_of("kind") == "avoidable_mate_with_game_record" => {
+                    // the recorded position command on a fresh engine, then the search
+                    let cmd = c.str_of("position_command");
+                    let d = c.int_of("depth") as u8;
+                    let legal = p.legal_moves();
+                    let blunders: Vec<String> = legal.iter().filter(|m| { let n = p.make(m); let nl = n.legal_moves(); !mates_in_one(&n, &nl).is_empty() }).map(|m| m.uci()).collect();
+                    st.case(hash64(&(cmd.clone(), d)), true);
+                    let r = engine_call(|| {
+                        let mut e = crate::uci::Flounder::new();
+                        e.verif_handle_command(&cmd);
+                        let b = *e.verif_board();
+                        e.verif_searcher().find_best_move(&b, d, None).1.map(|x| x.to_algebraic())
+                    });
+                    match r {
+                        Ok(ans) => {
+                            let a = ans.unwrap_or_else(|| "none".into());
+                            if blunders.contains(&a) {
+                                st.violation("C08:replay:allowed-mate-with-game-record", format!("after '{}' at depth {} the engine answers {} which allows mate in one", cmd, d, a), c.clone());
+                            }
+                        }
+                        Err(msg) => st.violation("C08:replay:panic", format!("search after '{}' panicked: {}", cmd, msg), c.clone()),
+                    }
+                }
                 Ok(p) => {
                     let mut rng = Rng::new(1, 1);
                     c08_position(&p, &mut rng, &mut st, Some(c.int_of("depth") as u8), 32);
